@@ -185,6 +185,26 @@ fn replay(path: &str) -> ! {
             let o = run_on(&mut m, &x, &mut wr, Pattern::NONE);
             println!("round {r}: run(\"{}\") on Lexi -> {} allocation calls", show(&x), o.allocs);
             bad[r] = o.allocs != 0;
+        } else if w["engine"] == "run-big" || w["engine"] == "process-big" {
+            let x = unhex(w["input"].as_str().unwrap());
+            let isrun = w["engine"] == "run-big";
+            let size = w["size"].as_u64().unwrap_or(1) as usize;
+            let allocs = std::thread::Builder::new()
+                .stack_size(64 << 20)
+                .spawn(move || {
+                    let mut m = mc::ifaces::Big;
+                    if isrun {
+                        let mut wr: heapless::Vec<u8, 64> = heapless::Vec::new();
+                        run_on(&mut m, &x, &mut wr, Pattern::NONE).allocs
+                    } else {
+                        mc::runx::process_on::<32, _>(&mut m, &x, &env::regular(x.len(), size), None, Pattern::NONE, false).allocs
+                    }
+                })
+                .unwrap()
+                .join()
+                .unwrap();
+            println!("round {r}: handlers with large futures -> {allocs} allocation calls");
+            bad[r] = allocs != 0;
         } else if w["engine"] == "process" {
             let s = unhex(w["stream"].as_str().unwrap());
             let n = w["n"].as_u64().unwrap() as usize;
@@ -386,11 +406,58 @@ pub fn main() {
         }
     }
 
+    // handlers whose futures hold 1 KiB .. 130 KiB across a suspension point, through run and
+    // through process (all messages of <= 2 units, every read size for process)
+    let mut big_execs = 0u64;
+    {
+        use mc::ifaces::Big;
+        let units: [&[u8]; 9] = [b"K1", b"K5? 7", b"K20 'ab'", b"K20?", b"K70 1,2", b"K130?", b"SMAL?", b"K5?", b"ZZ"];
+        let mut msgs: Vec<Vec<u8>> = vec![];
+        for a in units {
+            msgs.push([a, b"\n"].concat());
+            for b in units {
+                msgs.push([a, b";", b, b"\n"].concat());
+            }
+        }
+        let r = std::thread::Builder::new().stack_size(64 << 20).spawn(move || {
+            let mut g = Groups::new();
+            let mut n = 0u64;
+            for x in &msgs {
+                let mut m = Big;
+                let mut w: heapless::Vec<u8, 64> = heapless::Vec::new();
+                let o = run_on(&mut m, x, &mut w, Pattern::NONE);
+                n += 1;
+                if o.end == End::Returned && o.allocs != 0 {
+                    let f = vec![("engine", "run-large-handler-futures".to_string())];
+                    g.add("no-allocation", &f, (x.len(), x), || {
+                        (json!({"engine": "run-big", "input": hex(x)}), format!("run(\"{}\") on handlers with large futures: {} heap allocation calls", show(x), o.allocs))
+                    });
+                }
+                for size in [1usize, 3, x.len()] {
+                    let mut m = Big;
+                    let sizes = env::regular(x.len(), size);
+                    let o = mc::runx::process_on::<32, _>(&mut m, x, &sizes, None, Pattern::NONE, false);
+                    n += 1;
+                    if o.allocs != 0 && !matches!(o.end, End::Panicked(_)) {
+                        let f = vec![("engine", "process-large-handler-futures".to_string())];
+                        g.add("no-allocation", &f, (x.len(), x), || {
+                            (json!({"engine": "process-big", "input": hex(x), "size": size}), format!("process::<32>(\"{}\") {} bytes per read, handlers with large futures: {} heap allocation calls", show(x), size, o.allocs))
+                        });
+                    }
+                }
+            }
+            (g, n)
+        });
+        let (g, n) = r.expect("spawn").join().expect("large-future sweep");
+        out.groups.merge(g);
+        big_execs += n;
+    }
+
     // response value tables
     let mut resp_execs = 0u64;
     response_table(&mut out.groups, &mut resp_execs);
 
-    let total = lex_execs + proc_execs + resp_execs + hdr_execs;
+    let total = lex_execs + proc_execs + resp_execs + hdr_execs + big_execs;
     out.cov("states", total);
     out.cov("transitions", total);
     out.cov("traces_validated_against_impl", total);
@@ -404,6 +471,7 @@ pub fn main() {
         "bounds",
         json!({"lex_run": {"alphabet": lex::sigma_json(), "max_tokens": lex_len, "second_alphabet": lex::sigma_alt_json(), "second_alphabet_max_tokens": lex_len - 1, "writer": "heapless::Vec<u8,64>", "executions": lex_execs},
                "process": {"pool": POOL.iter().map(|m| show(m)).collect::<Vec<_>>(), "max_messages": k, "N": [16, 64], "chunkings": "all with <=2 cuts + one byte per read", "executions": proc_execs},
+               "large_handler_futures": {"future_sizes_KiB": [1, 5, 20, 70, 130], "messages": "all of <=2 units over 9 units", "through": "run (heapless::Vec<u8,64>) and process::<32> with 1, 3 and all bytes per read", "executions": big_execs},
                "long_mnemonics": {"lengths": "1..=40, both cases, declared mnemonics of 11 and 23 characters", "executions": hdr_execs},
                "write_response": {"values": resp_execs, "writer": "heapless::Vec<u8,512>", "types": "bool, all integer widths, f32/f64 (every sign/exponent x 3 mantissas), &str, heapless::String, Characters, Arbitrary, tuples, slices, heapless::Vec, Error, ()"}}),
     );
